@@ -99,7 +99,7 @@ structure Cx where
   fixK1 : Bool := false     -- a null union member matches only null
   fixK2 : Bool := false     -- exact scalar type wins before any structured member is tried
   fixK10 : Bool := false    -- serializing a union picks the member the value conforms to
-  fixK3 : Bool := false     -- named tuple with defaults: only a short input selects defaults (a nested IndexError propagates)
+  fixK3 : Bool := true      -- named tuple with defaults: only a short input selects defaults (a nested IndexError propagates); /repo since fix F17, `false` = the behaviour before it
   /-- leaf kinds a format dialect leaves unconverted when serializing (pass_through) -/
   passLeaves : List Leaf := []
   /-- no_copy_collections contains list / dict -/
